@@ -154,10 +154,11 @@ def _table_dump(table, indent, out):
     out.append("%s%s: symbols=%s" % (indent, table.name, sorted(
         (k, getattr(v, "primitive_type", None)) for k, v in syms.items())))
     for name, use in sorted(getattr(table, "_modules", {}).items()):
-        out.append("%s  use %s only=%s rename=%s wildcard=%s" % (
+        names = sorted(use.symbol_names)
+        out.append("%s  use %s only=%s rename=%s wildcard=%s symbols=%s declared=%s" % (
             indent, name, sorted(use.only_list) if use.only_list is not None else None,
             sorted(use.rename_list) if use.rename_list is not None else None,
-            use.wildcard_import))
+            use.wildcard_import, names, [use.get_declared_name(n) for n in names]))
     for child in table.children:
         _table_dump(child, indent + "    ", out)
 
